@@ -26,7 +26,7 @@ def f32z(c):
 class Traced:
   """The real function `fn(*pytrees)` traced on example arguments."""
 
-  def __init__(self, fn, example_args, axis_env=None, name='f'):
+  def __init__(self, fn, example_args, axis_env=None, name='f', out_like=None):
     self.fn = fn
     self.example = example_args
     self.flat, self.in_tree = jax.tree_util.tree_flatten(example_args)
@@ -39,7 +39,7 @@ class Traced:
       if axis_env:
         self.jaxpr = jax.make_jaxpr(flat_fn, axis_env=axis_env)(*self.flat)
         # output structure: trace once without collectives is impossible; derive from jaxpr + eval_shape under axis env
-        self.out_tree = None
+        self.out_tree = jax.tree_util.tree_structure(out_like) if out_like is not None else None
       else:
         self.jaxpr, out_shape = jax.make_jaxpr(flat_fn, return_shape=True)(*self.flat)
         self.out_tree = jax.tree_util.tree_structure(out_shape)
@@ -62,6 +62,11 @@ class Traced:
 
   def unflatten_in(self, leaves):
     return jax.tree_util.tree_unflatten(self.in_tree, leaves)
+
+  def unflatten_out(self, outs):
+    if self.out_tree is not None:
+      return jax.tree_util.tree_unflatten(self.out_tree, outs)
+    return outs
 
   def run(self, interp, leaves):
     outs = interp.eval(self.jaxpr.jaxpr, self.jaxpr.consts, *leaves)
